@@ -92,21 +92,86 @@ def axis(ax, n):
     return np.array([float(Fraction(ax["o"] + i * ax["s"], ax["den"])) for i in range(n)], dtype=np.float64)
 
 
+def lay_out(arr, layout):
+    """the same H x W values in a given memory layout"""
+    if layout in (None, "C"):
+        return np.ascontiguousarray(arr)
+    if layout == "F":
+        return np.asfortranarray(arr)
+    if layout == "T":                      # transposed view of a C buffer
+        return np.ascontiguousarray(arr.T).T
+    if layout == "strided":                # every other row / column of a larger buffer full of other values
+        H, W = arr.shape
+        big = np.empty((2 * H, 2 * W + 1), dtype=arr.dtype)
+        big[:] = arr.flat[0]
+        big[1::2, :] = arr.flat[-1]
+        big[::2, 1::2] = arr
+        return big[::2, 1::2]
+    if layout == "rev":                    # negative strides on both axes
+        return np.ascontiguousarray(arr[::-1, ::-1])[::-1, ::-1]
+    raise ValueError(layout)
+
+
+def make_point(y, x, ptype):
+    if ptype in (None, "tuple"):
+        return (y, x)
+    if ptype == "list":
+        return [y, x]
+    if ptype == "ndarray":
+        return np.array([y, x], dtype=np.float64)
+    if ptype == "np_f64":
+        return (np.float64(y), np.float64(x))
+    if ptype == "np_f32":
+        return (np.float32(y), np.float32(x))
+    if ptype == "np_int":                  # driver guarantees integral coordinates
+        return (np.int64(round(y)), np.int32(round(x)))
+    if ptype == "int":
+        return (int(round(y)), int(round(x)))
+    raise ValueError(ptype)
+
+
 def run_job(j):
     H, W = j["H"], j["W"]
     vals = np.array([[np.nan if v == "nan" else float(v) for v in row] for row in j["vals"]], dtype=np.float64)
     barriers = list(j.get("barriers", []))
-    cross = [[int(not (math.isnan(vals[r, c]) or any(vals[r, c] == b for b in barriers))) for c in range(W)]
-             for r in range(H)]
+    dtype = j.get("dtype") or "float64"
+    data = lay_out(vals.astype(dtype), j.get("layout"))
+    # crossable = not NaN and equal to no barrier value -- decided here on the values the surface really holds
+    # (python scalars compare exactly: a barrier value not representable in the dtype matches nothing)
+    items = [[data[r, c].item() for c in range(W)] for r in range(H)]
+    cross = [[int(not ((isinstance(v, float) and math.isnan(v)) or any(v == b for b in barriers))) for v in row]
+             for row in items]
     ys, xs = axis(j["yax"], H), axis(j["xax"], W)
-    start = (float(Fraction(j["sp"][0], j["yax"]["den"])), float(Fraction(j["sp"][1], j["xax"]["den"])))
-    goal = (float(Fraction(j["gp"][0], j["yax"]["den"])), float(Fraction(j["gp"][1], j["xax"]["den"])))
-    data = vals.astype(j.get("dtype") or "float64")
-    surface = xr.DataArray(data, dims=["y", "x"], coords={"y": ys, "x": xs})
-    case = {"H": H, "W": W, "cross": cross, "conn": j["conn"], "yax": j["yax"], "xax": j["xax"],
+    yf = lambda k: float(Fraction(k, j["yax"]["den"]))
+    xf = lambda k: float(Fraction(k, j["xax"]["den"]))
+    start = make_point(yf(j["sp"][0]), xf(j["sp"][1]), j.get("ptype"))
+    goal = make_point(yf(j["gp"][0]), xf(j["gp"][1]), j.get("ptype"))
+    ydim, xdim = j.get("ydim", "y"), j.get("xdim", "x")
+    attrs = {}
+    ry, rx = j["yax"].get("res", 0), j["xax"].get("res", 0)
+    if ry and rx:                          # a `res` attribute (x first); it overrides the coordinate spacing
+        form = j.get("resform", "tuple")
+        fy, fx = yf(ry), xf(rx)
+        attrs["res"] = {"tuple": (fx, fy), "list": [fx, fy], "ndarray": np.array([fx, fy]), "scalar": fx}[form]
+        attrs["note"] = "kept"
+    surface = xr.DataArray(data, dims=[ydim, xdim], coords={ydim: ys, xdim: xs}, attrs=attrs)
+    pristine = data.copy()
+    yax = dict(j["yax"], res=ry)
+    xax = dict(j["xax"], res=rx)
+    case = {"H": H, "W": W, "cross": cross, "conn": j["conn"], "yax": yax, "xax": xax,
             "sp": j["sp"], "gp": j["gp"], "snapS": int(j.get("snapS", 0)), "snapG": int(j.get("snapG", 0)),
             "tag": j.get("tag", "")}
     want_ev = bool(j.get("events")) and INTERP
+    kw = dict(barriers=barriers, connectivity=j["conn"], x=xdim, y=ydim,
+              snap_start=bool(j.get("snapS", 0)), snap_goal=bool(j.get("snapG", 0)))
+    try:
+        # earlier calls on the same surface object: the observed call must not depend on them
+        for (p, q) in j.get("pre", []):
+            A.a_star_search(surface, make_point(yf(p[0]), xf(p[1]), j.get("ptype")),
+                            make_point(yf(q[0]), xf(q[1]), j.get("ptype")), **kw)
+    except Exception as ex:
+        case["error"] = "%s in an earlier call on the same surface: %s" % (type(ex).__name__, ex)
+        return case
     _seen.clear()
     _events.clear()
     _ctx.clear()
@@ -114,19 +179,18 @@ def run_job(j):
     if want_ev:
         A._min_cost_pixel_id = _min_rec
     try:
-        out = A.a_star_search(surface, start, goal, barriers=barriers, connectivity=j["conn"],
-                              snap_start=bool(j.get("snapS", 0)), snap_goal=bool(j.get("snapG", 0)))
+        out = A.a_star_search(surface, start, goal, **kw)
         res = np.asarray(out.data, dtype=np.float64)
-        pix = [list(map(int, A._get_pixel_id(start, surface, "x", "y"))),
-               list(map(int, A._get_pixel_id(goal, surface, "x", "y")))]
+        pix = [list(map(int, A._get_pixel_id(start, surface, xdim, ydim))),
+               list(map(int, A._get_pixel_id(goal, surface, xdim, ydim)))]
     except Exception as ex:  # the call itself failed
         case["error"] = "%s: %s" % (type(ex).__name__, ex)
         return case
     finally:
         A._a_star_search = _orig_search
         A._min_cost_pixel_id = _orig_min
-    if res.shape != (H, W):
-        case["error"] = "output shape %s" % (res.shape,)
+    if res.shape != (H, W) or tuple(out.dims) != (ydim, xdim):
+        case["error"] = "output shape %s dims %s" % (res.shape, out.dims)
         return case
     n = H * W
     case["path"] = [[surd(float(res[r, c]), n) for c in range(W)] for r in range(H)]
@@ -135,7 +199,11 @@ def run_job(j):
     case["pix"] = pix
     case["events"] = [] if _ctx.get("frame_failed") else [dict(e) for e in _events]
     case["raw"] = [[None if v != v else float(v) for v in row] for row in res]
-    case["same_input"] = bool(np.array_equal(np.asarray(surface.data), data, equal_nan=True))
+    # inputs untouched: same values bit for bit (dtype kept), same coordinates, same attrs object contents
+    same = (surface.data.dtype == pristine.dtype and np.array_equal(surface.data, pristine, equal_nan=(pristine.dtype.kind == "f"))
+            and np.array_equal(surface[ydim].data, ys) and np.array_equal(surface[xdim].data, xs)
+            and set(surface.attrs) == set(attrs))
+    case["untouched"] = int(bool(same))
     return case
 
 
